@@ -13,11 +13,13 @@ if '-j' in args:
     i = args.index('-j'); jobs = int(args[i + 1]); del args[i:i + 2]
 items = []
 for p in sorted(glob.glob(os.path.join(ROOT, 'seeded', 'audit', '*', '*.diff'))):
-    name = os.path.basename(p)[:-5]
-    m = re.match(r'^(C\d\d)_(\d+)$', name)
+    base = os.path.basename(p)[:-5]
+    tag = os.path.basename(os.path.dirname(p))
+    m = re.match(r'^(C\d\d)_(\d+)$', base)
     if not m:
         continue
-    if args and not any(name.startswith(a) for a in args):
+    name = base if tag in 'ABCDEFGHIJ' else f'{tag}/{base}'      # (round-1 names are unique; later rounds carry their tag)
+    if args and not any(name.startswith(a) or base.startswith(a) for a in args):
         continue
     items.append((name, m.group(1), p))
 try:
@@ -28,7 +30,7 @@ except Exception:
 
 def one(item):
     name, pid, patch = item
-    wt = tempfile.mkdtemp(prefix=f'ra_{name}_', dir='/tmp'); os.rmdir(wt)
+    wt = tempfile.mkdtemp(prefix='ra_' + name.replace('/', '_') + '_', dir='/tmp'); os.rmdir(wt)
     evd = tempfile.mkdtemp(prefix='ev_ra_')
     try:
         subprocess.run(['git', '-C', '/repo', 'worktree', 'add', '-q', '--detach', wt, 'HEAD'], check=True, capture_output=True)
@@ -51,7 +53,7 @@ with cf.ThreadPoolExecutor(jobs) as ex:
     for name, verdict, tail in ex.map(one, items):
         exp = (EXPECTED.get(name) or {}).get('expect')
         flag = '' if exp is None else ('' if exp == verdict else f'   <-- expected {exp}')
-        print(f'{name:8s} {verdict:14s} {tail}{flag}', flush=True)
+        print(f'{name:10s} {verdict:14s} {tail}{flag}', flush=True)
         res[name] = verdict
 subprocess.run(['git', '-C', '/repo', 'worktree', 'prune'])
 json.dump(res, open('/tmp/regress_audit_result.json', 'w'), indent=1)
